@@ -54,7 +54,10 @@ static void build_attempts()
                                            std::string(70, 'a') + "\xC3", std::string(300, 'b') + "\xFF" + "tail", std::string(1100, 'c') + "\xE2\x82"};
     const std::vector<std::u16string> bad16 = {u"\xD800", std::u16string(u"A") + (char16_t)0xDC00 + u"A", std::u16string(1, (char16_t)0xD800) + u"A",
                                                std::u16string(1, (char16_t)0xDBFF), std::u16string(20, u'a') + (char16_t)0xD800,
-                                               std::u16string(70, u'a') + (char16_t)0xD800, std::u16string(300, u'\u00e9') + (char16_t)0xDC00 + u"tail"};
+                                               std::u16string(70, u'a') + (char16_t)0xD800, std::u16string(300, u'\u00e9') + (char16_t)0xDC00 + u"tail",
+                                               // two surrogates of the same kind next to each other (a pair test that looks at "any two surrogates" passes them)
+                                               std::u16string(2, (char16_t)0xD800), std::u16string(2, (char16_t)0xDC00), std::u16string(u"ab") + (char16_t)0xDBFF + (char16_t)0xD800 + u"c",
+                                               std::u16string(20, u'x') + (char16_t)0xDC00 + (char16_t)0xDFFF};
     const std::vector<std::u32string> bad32 = {std::u32string(1, (char32_t)0x110000), std::u32string(U"A") + (char32_t)0x110000 + U"B",
                                                std::u32string(1, (char32_t)0xFFFFFFFFu), std::u32string(20, U'a') + (char32_t)0x110000,
                                                std::u32string(70, U'a') + (char32_t)0x110000, std::u32string(300, U'\u20ac') + (char32_t)0x110000 + U"tail"};
